@@ -28,8 +28,10 @@ LEVEL_NOTE = ("Bounded scope: all argv of <= 3 words over 15 tokens and <= 2 wor
 TECHNIQUE = "TLA+ spec + TLC exhaustive enumeration of behaviours replayed on the implementation"
 DESIGN_REF = "DESIGN.md section 6 C08, 8a Options"
 
-CFGS = {"quick": ["OptParse_quick.cfg", "OptParse_quick2.cfg", "OptParse_bool.cfg", "OptParse_prefix.cfg"],
-        "thorough": ["OptParse_thorough.cfg", "OptParse_thorough2.cfg", "OptParse_quick2.cfg", "OptParse_bool.cfg", "OptParse_prefix3.cfg"]}
+CFGS = {"quick": ["OptParse_quick.cfg", "OptParse_quick2.cfg", "OptParse_bool.cfg", "OptParse_prefix.cfg", "OptParse_lattice.cfg",
+                  "OptParse_hist.cfg"],
+        "thorough": ["OptParse_thorough.cfg", "OptParse_thorough2.cfg", "OptParse_quick2.cfg", "OptParse_bool.cfg",
+                     "OptParse_prefix3.cfg", "OptParse_lattice.cfg", "OptParse_hist2.cfg", "OptParse_hist4.cfg"]}
 SETBITS = {"PRE": 1, "REM": 2}
 
 
@@ -48,7 +50,8 @@ def write_tables(ctx, hdr):
         for t, table in enumerate(hdr["tables"], 1):
             f.write("I %d %d %d\n" % (t, sum(1 << b for b in hdr["flags0"][t - 1]), hdr["int0"]))
             for o in table:
-                f.write("O %d %d %s %d %d %d %s\n" % (t, o["sh"], o["kind"], int(o["pp"]), int(o["dep"]), o["bit"], tok(o["lg"])))
+                f.write("O %d %d %s %d %d %d %d %s\n" % (t, o["sh"], o["kind"], int(o["pp"]), int(o["dep"]), int(o["arr"]), o["bit"],
+                                                        tok(o["lg"])))
     return p
 
 
@@ -58,10 +61,13 @@ NP = len(PRELUDES)
 
 
 def script_text(sid, b, prelude=0):
-    st = sum(SETBITS[s] for s in b["st"])
-    lines = ["S %d" % sid, "parse %d %d %s %s %d = ? ?" % (b["tb"], st, tok(b["argv"]), tok(bool(b["re"]) or not b["strict"]), prelude)]
-    if "PRE" in b["st"]:
-        lines.append("parse %d -1 - F %d = ? ?" % (b["tb"], prelude))
+    lines = ["S %d" % sid]
+    for c, cs in enumerate(b["calls"]):         # one spifopt_parse() call per element of the history, same argv, same argc
+        st = sum(SETBITS[x] for x in cs)
+        if c == 0:
+            lines.append("parse %d %d %s %s %d = ? ?" % (b["tb"], st, tok(b["argv"]), tok(bool(b["re"]) or not b["strict"]), prelude))
+        else:
+            lines.append("parse %d %d - F %d = ? ?" % (b["tb"], st, prelude))
     lines.append("E")
     return "\n".join(lines) + "\n"
 
@@ -120,8 +126,8 @@ def compare(hdr, b, pi, got):
         out.append(("value", "helpcalls", "0", str(got["help"])))
     if not got["term"]:
         out.append(("value", "argv", "NULL-terminated", "no NULL within argc"))
-    elif not match_argv(b["argv"], e["keep"], got["argv"]):
-        out.append(("value", "argv", tok([[text(w), k] for w, k in zip(b["argv"], e["keep"])]).replace(" ", "_"),
+    elif not match_argv(b["argv"] if e["same"] else e["inw"], e["keep"], got["argv"]):
+        out.append(("value", "argv", tok([[text(w), k] for w, k in zip(b["argv"] if e["same"] else e["inw"], e["keep"])]).replace(" ", "_"),
                     tok([text(w) for w in got["argv"]]).replace(" ", "_")))
     return out
 
@@ -137,8 +143,22 @@ def show_argv(argv):
     return "[%s]" % ",".join(ws)
 
 
+CANON = ("none", "REM", "PRE>none", "PRE+REM>REM")
+
+
+def hist_str(calls):
+    """A history as text: the settings of each call, e.g. PRE+REM>REM (pre-parse pass, then removing normal pass)."""
+    return ">".join("+".join(sorted(c)) or "none" for c in calls)
+
+
+def pass_label(b, k):
+    """pre / main for the call k (0-based) of the four usual histories, pre@3 / main@2 ... for the others."""
+    nm = "pre" if "PRE" in b["calls"][k] else "main"
+    return nm if hist_str(b["calls"]) in CANON else "%s@%d" % (nm, k + 1)
+
+
 def bkey(b):
-    return (b["tb"], "+".join(sorted(b["st"])), tuple(tuple(w) for w in b["argv"]))
+    return (b["tb"], hist_str(b["calls"]), tuple(tuple(w) for w in b["argv"]))
 
 
 def run_cfg(ctx, exe, cfg, state, module="MC_OptParse.tla", specdir=None, vacuity=True):
@@ -219,17 +239,18 @@ def run_cfg(ctx, exe, cfg, state, module="MC_OptParse.tla", specdir=None, vacuit
     longest = None
     for k, r in enumerate(todo):
         b = json.loads(r)
-        if b["strict"] and "PRE" in b["st"] and (longest is None or len(b["argv"]) > len(longest["argv"]) or
+        if b["strict"] and len(b["passes"]) > 1 and (longest is None or len(b["argv"]) > len(longest["argv"]) or
                                                 (len(b["argv"]) == len(longest["argv"]) and k % 97 == 0)):
             longest = b
         sid = k * NP + 1
         vs = []
-        npass = 2 if "PRE" in b["st"] else 1
+        npass = len(b["calls"])
+        ncmp = len(b["passes"]) if b["strict"] else npass       # calls behind an undetermined continuation (E) are not compared
         nstrict += 1 if b["strict"] else 0
         for f in hard.get(sid, []):
             if f.kind in ("crash", "hang", "exit", "inv"):
                 d = f.sig if f.kind != "inv" else f.got
-                vs.append((f.kind, d, ["pre", "main"][f.step] if npass == 2 and f.step < 2 else "main", "", d, f.detail))
+                vs.append((f.kind, d, pass_label(b, min(f.step, npass - 1)), "", d, f.detail))
                 break
         if not vs:
             for pi in range(npass):
@@ -237,10 +258,15 @@ def run_cfg(ctx, exe, cfg, state, module="MC_OptParse.tla", specdir=None, vacuit
                 if st is None:
                     vs.append(("missing", "record", str(pi), "", "", ""))
                     break
+                if pi >= ncmp:
+                    if ",hang=T," in st:
+                        vs.append(("hang", "spifopt_parse", pass_label(b, pi), "returns", "still running after 0.3 s CPU", ""))
+                        break
+                    continue
                 mm = compare(hdr, b, pi, untok(st))
                 npasses += 1
                 if mm:
-                    pn = b["passes"][pi]["pass"] if b["strict"] else ("pre" if npass == 2 and pi == 0 else "main")
+                    pn = pass_label(b, pi)
                     for kind, field, exp, got in mm:
                         vs.append((kind, field, pn, exp, got, ""))
                     break
@@ -258,15 +284,15 @@ def run_cfg(ctx, exe, cfg, state, module="MC_OptParse.tla", specdir=None, vacuit
                 for f in hard.get(sp, []):
                     if f.kind in ("crash", "hang", "exit", "inv", "heap"):
                         d = f.sig if f.kind not in ("inv", "heap") else f.got
-                        pv.append(("stale-state", "after-%s:%s" % (PRELUDES[p], f.kind), "main", "as the fresh run", d, f.detail))
+                        pv.append(("stale-state", "after-%s:%s" % (PRELUDES[p], f.kind), pass_label(b, npass - 1), "as the fresh run", d, f.detail))
                         break
                 if not pv:
                     for pi in range(npass):
                         a, g = by.get(sid, {}).get(pi), by.get(sp, {}).get(pi)
                         if a != g:
-                            mm = compare(hdr, b, pi, untok(g)) if g is not None else []
+                            mm = compare(hdr, b, pi, untok(g)) if g is not None and pi < ncmp else []
                             fld = mm[0][1] if mm else "result"
-                            pv.append(("stale-state", "after-%s:%s" % (PRELUDES[p], fld), "pre" if npass == 2 and pi == 0 else "main",
+                            pv.append(("stale-state", "after-%s:%s" % (PRELUDES[p], fld), pass_label(b, pi),
                                        (a or "-")[:300], (g or "-")[:300], ""))
                             break
                 if pv:
@@ -282,7 +308,7 @@ def run_cfg(ctx, exe, cfg, state, module="MC_OptParse.tla", specdir=None, vacuit
                                              "wall_s": round(time.time() - t0, 1)}
     if longest is not None:
         b = longest
-        ctx.sample({"cfg": cfg, "table": b["tb"], "settings": sorted(b["st"]), "argv": [text(w) for w in b["argv"]],
+        ctx.sample({"cfg": cfg, "table": b["tb"], "history": hist_str(b["calls"]), "argv": [text(w) for w in b["argv"]],
                     "expected_main": {"boolword": sorted(b["passes"][-1]["fl"]), "keep": b["passes"][-1]["keep"],
                                       "targets_changed": [[j, tok(v)] for j, v in b["passes"][-1]["tv"]],
                                       "bad": [b["passes"][-1]["badLo"], b["passes"][-1]["badHi"]]}})
@@ -440,8 +466,8 @@ def run(ctx):
         v = [x for x in vs if fkey.startswith("%s:%s pass=%s " % (x[0], x[1], x[2]))][0]
         kind, field, pas, exp, got, detail = v
         argv_s = show_argv(b["argv"])
-        sts = ["{%s}" % ",".join(sorted(verdicts[m][1]["st"])) for m in ms]
-        what = "table %d argv %s settings %s: %s %s in the %s pass: expected %s, got %s (%d explored vectors reduce to this) %s" % (
+        sts = ["{%s}" % hist_str(verdicts[m][1]["calls"]) for m in ms]
+        what = "table %d argv %s histories %s: %s %s in the %s pass: expected %s, got %s (%d explored vectors reduce to this) %s" % (
             b["tb"], argv_s, " ".join(sts), kind, field, pas, exp, got, sum(byf[fkey].values()), detail[:700])
         ctx.report(fkey, what, {"harness_args": ["@tables"], "script_text": txt, "behaviour": b})
     ctx.cov["failing_behaviours"] = len(verdicts)
